@@ -7,6 +7,7 @@
 
 mod engine;
 mod engine_blob;
+mod engine_buggify;
 mod engine_cabi;
 mod engine_io;
 mod engine_sched;
@@ -24,7 +25,7 @@ use std::process::{Command, Stdio};
 use std::time::{Duration, Instant};
 
 fn engines() -> Vec<Box<dyn Engine>> {
-    vec![Box::new(engine_io::IoEngine), Box::new(engine_blob::BlobEngine), Box::new(engine_cabi::CabiEngine), Box::new(engine_sched::SchedEngine), Box::new(engine_upgrade::UpgradeEngine)]
+    vec![Box::new(engine_io::IoEngine), Box::new(engine_blob::BlobEngine), Box::new(engine_cabi::CabiEngine), Box::new(engine_sched::SchedEngine), Box::new(engine_upgrade::UpgradeEngine), Box::new(engine_buggify::BuggifyEngine)]
 }
 
 fn engine_for(id: &str) -> Option<Box<dyn Engine>> {
